@@ -88,6 +88,10 @@ class Model:
             return self.invoke(v[1])
         if isinstance(v, tuple) and len(v) == 2 and v[0] == 'sub':
             return self.call_sub(v[1])
+        if isinstance(v, E.CallObj):
+            # a callable value found in a namespace frame (a cached
+            # condition, a let binding) is called, as any callable is
+            return v()
         return v
 
     def invoke(self, site):
@@ -116,6 +120,8 @@ class Model:
             v = self.raw(c['site'])
             if isinstance(v, tuple) and len(v) == 2 and v[0] == 'site':
                 return self.invoke(v[1])
+            if isinstance(v, E.CallObj):
+                return v()
             raise TypeError('not callable')
         if how == 'getitem0':
             return self.raw(c['site'])
